@@ -401,6 +401,8 @@ pub fn explore_exhaustive_capped(w: &World, state_budget: usize, max_depth: usiz
             let mut cache = DecodeCache::default();
             // apply without recording (the final replay records)
             let _ = st.apply(w, &d, &mut cache, 0);
+            // nothing is duplicated in this mode: the log of sent messages is not needed
+            st.sent_log.clear();
             if seen.insert(st.state_hash()) {
                 let mut decisions = f.decisions.clone();
                 decisions.push(d);
